@@ -174,7 +174,7 @@ func requiredFields(p *Prog, msg *types.Named) map[string]bool {
 
 // C14 — sign bytes injective.
 func checkC14(p *Prog, r *Report) {
-	r.Explain = "Decided statically: D1 for each of the 14 messages GetSignBytes ≡ sdk.MustSortJSON(ModuleCdc.MustMarshalJSON(<whole receiver>)) with ModuleCdc = codec.NewAminoCodec(amino) of the message's own package (deterministic, whole message); D2 exhaustiveness — the types implementing sdk.Msg are exactly the types given to RegisterImplementations((*sdk.Msg)(nil), …) and to RegisterConcrete, amino names are pairwise distinct, generated proto type names are distinct, all four modules' AppModuleBasic are in ModuleBasics and the tx config uses the SDK's DefaultSignModes — so in the direct/direct-aux/textual modes the signed TxBody carries a distinct type URL per message type; D3 legacy amino JSON — only legacytx.LegacyMsg implementers can be signed in that mode; for each such type either its name is registered on the very codec object GetSignBytes marshals with (then the \"type\" wrapper separates it from every other type), or the bare JSON object is compared pairwise: two types are separable iff some field that ValidateBasic forces non-empty in one has no same-named JSON field in the other. All pairs are enumerated."
+	r.Explain = "Decided statically: D1 for each of the 14 messages GetSignBytes ≡ sdk.MustSortJSON(ModuleCdc.MustMarshalJSON(<whole receiver>)) with ModuleCdc = codec.NewAminoCodec(amino) of the message's own package (deterministic, whole message); D2 exhaustiveness — the types implementing sdk.Msg are exactly the types given to RegisterImplementations((*sdk.Msg)(nil), …) and to RegisterConcrete, amino names are pairwise distinct, generated proto type names are distinct, all four modules' AppModuleBasic are in ModuleBasics and the tx config uses the SDK's DefaultSignModes — so in the direct/direct-aux/textual modes the signed TxBody carries a distinct type URL per message type; D3 legacy amino JSON — only legacytx.LegacyMsg implementers can be signed in that mode; for each such type either its name is registered on the very codec object GetSignBytes marshals with (then the \"type\" wrapper separates it from every other type), or the bare JSON object is compared pairwise: two types are separable iff some field that ValidateBasic forces non-empty in one has no same-named JSON field in the other. All pairs are enumerated. D4b hand-written MarshalJSON/MarshalAmino methods on types inside the messages are exactly the reviewed ones and still return json.Marshal of a part of the receiver; D5 every custom message keeps its identity inside authz MsgExec / gov and group MsgSubmitProposal (name registered on the wrapper's amino codec from an init, or separable by a required field from every other unregistered message); D6 every string field is confined by ValidateBasic to a language without U+FFFD, a bech32 address or utf8.ValidString (encoding/json renders invalid bytes as U+FFFD) — the fields that are not are listed as known findings (F14)."
 	r.NotDec = []string{"amino JSON encoder internals and MustSortJSON", "SDK sign-mode handlers", "injectivity of the protobuf encoding on validated values", "signature scheme"}
 	r.Trusted = []string{"cosmos-sdk v0.47.12 x/auth/tx, legacytx.StdSignBytes, codec.AminoCodec", "gogoproto"}
 	kp := func(rule, rest string) string { return rule + ":C14:" + rest }
